@@ -20,6 +20,12 @@ GEN = {
     "tables2": {"quick": ("MC_Heap_tables2_gen.cfg", 4, 1), "thorough": ("MC_Heap_tables2_gen.cfg", 5, 2)},
     "tables2deep": {"quick": ("MC_Heap_tables2_gen.cfg", 5, 1), "thorough": ("MC_Heap_tables2_gen.cfg", 6, 1)},
     "fp": {"quick": ("MC_Heap_fp_quick.cfg", 7, 1), "thorough": ("MC_Heap_fp_quick.cfg", 9, 2)},
+    "obsv1": {"quick": ("MC_Heap_obsv1_quick.cfg", 7, 1), "thorough": ("MC_Heap_obsv1_quick.cfg", 8, 1)},
+    "obsv2": {"quick": ("MC_Heap_obsv2_quick.cfg", 6, 1), "thorough": ("MC_Heap_obsv2_quick.cfg", 7, 1)},
+    "obst1": {"quick": ("MC_Heap_obst1_quick.cfg", 5, 1), "thorough": ("MC_Heap_obst1_quick.cfg", 6, 1)},
+    "obst2": {"quick": ("MC_Heap_obst2_quick.cfg", 5, 1), "thorough": ("MC_Heap_obst2_quick.cfg", 6, 1)},
+    "obst3": {"quick": ("MC_Heap_obst3_quick.cfg", 8, 1), "thorough": ("MC_Heap_obst3_quick.cfg", 9, 1)},
+    "obst4": {"quick": ("MC_Heap_obst4_quick.cfg", 7, 1), "thorough": ("MC_Heap_obst4_quick.cfg", 9, 1)},
     "names":  {"quick": ("MC_Heap_names_quick.cfg", 6, 1),  "thorough": ("MC_Heap_names_quick.cfg", 7, 2)},
 }
 DEVS = {
@@ -32,12 +38,21 @@ DEVS = {
 def mc(rep, tier, facets):
     for f in facets:
         cfg = f"MC_Heap_{f}_{tier}.cfg"
-        r = engine.run_tlc("MC_Heap", cfg, coverage=(tier == "quick" and f == "names"), timeout=2400,
+        r = engine.run_tlc("MC_Heap", cfg, coverage=(tier == "quick" and f in ("names", "fp", "tables")), timeout=2400,
                            workers=8 if tier == "quick" else 16)
         rep.add_mc(r, f"SerifHeap facet {f}: all histories within the bound; invariants + action properties")
         never = [a for a, (d, t) in r.coverage.items() if t == 0 and a not in ("Init",)]
         if r.coverage:
             rep.extra.setdefault("actions_never_enabled", {})[f] = never
+            # vacuity guard: every action the facet switches on must actually have been taken
+            cfgtext = open(os.path.join(engine.SPEC, cfg)).read()
+            acts = re.search(r"Acts = \{([^}]*)\}", cfgtext).group(1)
+            want = {"A" + a.strip().strip('"') for a in acts.split(",") if a.strip()}
+            alias = {"AReadFp": ["AReadFpV"], "APromote": ["AWrite"], "AObserve": ["AObserveV", "AObserveT"], "AShareVec": ["AShareVec"]}
+            for a in want:
+                names = alias.get(a, [a])
+                if not any(r.coverage.get(n, (0, 0))[1] > 0 for n in names):
+                    raise engine.MachineryError(f"facet {f}: action {a} is enabled in {cfg} but was never taken (vacuous model)")
 
 
 def devs(rep, names):
@@ -46,8 +61,11 @@ def devs(rep, names):
         rep.add_dev(d, r, DEVS[d] | {"temporal"})
 
 
-def gen(rep, tier, facet, clauses):
+def gen(rep, tier, facet, clauses, palettes=None):
+    """palettes: "plain" (0, 1) and / or "collide" (-1, -2: values whose hash() collide); obs facets use both"""
     cfgfile, depth, nvar = GEN[facet][tier]
+    if palettes is None:
+        palettes = "plain,collide" if facet.startswith("obs") else "plain"
     cfg = open(os.path.join(engine.SPEC, cfgfile)).read().replace("Emit = FALSE", "Emit = TRUE")
     cfg = re.sub(r"MaxDepth = \d+", f"MaxDepth = {depth}", cfg)
     cfg = "\n".join(l for l in cfg.splitlines() if not l.startswith(("INVARIANT", "PROPERTY"))) + "\nACTION_CONSTRAINT EmitT\n"
@@ -63,7 +81,7 @@ def gen(rep, tier, facet, clauses):
     mid = r.prints[len(r.prints) // 2][1]
     rep.sample({"suite": f"heap.gen.{facet}", "path": [[a["a"], a["x"], a["y"], a["z"], a["w"], a["vs"], a["nm"], a["res"]]
                                                         for a in mid["path"]], "post": mid["post"]})
-    engine.run_driver("drv_heap.py", ["replay", cp, op, str(nvar)], timeout=2400)
+    engine.run_driver("drv_heap.py", ["replay", cp, op, str(nvar), palettes], timeout=2400)
     out = json.load(open(op))
     rep.gen_cases += out["executed"]
     for k, v in out["per_clause"].items():
@@ -72,6 +90,7 @@ def gen(rep, tier, facet, clauses):
     for f in out["failures"]:
         if f["clause"] in clauses:
             case = {"facet": facet, "path": f["case"]["path"], "post": f["case"]["post"], "variant": f["variant"],
+                    "palette": f.get("palette", "plain"),
                     "step": f["step"], "forms": f["forms"]}
             rep.fail(f["clause"], f"heap.gen.{facet}", case, f["observed"], f["expected"])
 
